@@ -465,6 +465,11 @@ NAMED_SITES = {
     "re_ti00_split": ("treeinfo", "Release.deserialize_0_0", 0),
     "re_ti00_part": ("treeinfo", "Release.deserialize_0_0", 1),
 }
+EXPECTED_GROUPS = {
+    "re_nvra": ["name", "epoch", "version", "release", "arch"],
+    "re_date_type_respin": ["date", "type", "respin"],
+    "re_module_uid": ["module_name", "stream", "version", "context"],
+}
 GLOBAL_RES = {
     "re_nvra": "RPM_NVRA_RE",
     "re_release_short": "RELEASE_SHORT_RE",
@@ -578,6 +583,13 @@ def emit_regexes(R, report):
         L.append("Definition %s : re := %s." % (name, term))
         for g, n in sorted(groups.items(), key=lambda x: x[1]):
             L.append("Definition %s_g_%s : nat := %d." % (name, g, n))
+        # group names the models refer to must exist even when the pattern is missing or lost a group: the models then still
+        # build (and disagree with the implementation, which is what gets reported) instead of breaking every check's build
+        for g in EXPECTED_GROUPS.get(name, []):
+            if g not in groups:
+                L.append("Definition %s_g_%s : nat := 0.   (* group missing in the source *)" % (name, g))
+                if not notes:
+                    report["problems"].append("regex %s (%r): named group %s is missing" % (name, pattern, g))
         L.append("")
         all_names.append(name)
         patterns[name] = {"pattern": pattern, "origin": origin, "groups": groups, "notes": notes}
